@@ -1,4 +1,4 @@
-import Rtsp.Model.SenderReport
+import Rtsp.Model.F64
 /-
 Error analysis of the binary64 model `F64` (core Lean only): every rounding is within a relative
 error of 2^-53, conversions of integers below 2^53 are exact.
@@ -354,6 +354,138 @@ theorem ticks_bounds (d rate : Nat) (hd : d ≤ 2251799813685248) (hr : rate < t
   · exact final_lower (two53 * two53 * two53) (3 * two53 * two53 + 3 * two53 + 1) (3 * two53 * two53)
       ((two53 - 1) * (two53 - 1) * (two53 - 1)) 1000000000 e (d * rate) rate
       (by unfold two53; exact Nat.le_of_ble_eq_true rfl) (by rw [Nat.add_assoc]; exact Nat.le_add_right _ _) hl hx'
+
+
+/-- absolute rounding error for quotients below 2^32: at most 2^-22 (half an ulp in the top binade) -/
+structure NearAbs (r : F) (p q : Nat) : Prop where
+  den_pos : 0 < r.den
+  upper : 4194304 * (r.num * q) ≤ 4194304 * (p * r.den) + q * r.den
+  lower : 4194304 * (p * r.den) ≤ 4194304 * (r.num * q) + q * r.den
+
+theorem two_pow_lt_of (e : Int) (p q : Nat)
+    (hge : q * 2 ^ e.toNat ≤ p) (hp : p < 4294967296 * q) : e.toNat < 32 := by
+  have h1 : q * 2 ^ e.toNat < q * 4294967296 := by rw [Nat.mul_comm q 4294967296]; omega
+  have h2 : 2 ^ e.toNat < 2 ^ 32 := Nat.lt_of_mul_lt_mul_left h1
+  exact (Nat.pow_lt_pow_iff_right (by decide)).mp h2
+
+theorem roundAt_abs (p q : Nat) (e : Int) (hq : 0 < q) (hge : geExp p q e = true)
+    (hp : p < 4294967296 * q) : NearAbs (roundAt p q e) p q := by
+  have he : e < 32 := by
+    by_cases h0 : e ≥ 0
+    · have hA : q * 2 ^ e.toNat ≤ p := by simpa [geExp, h0] using hge
+      have := two_pow_lt_of e p q hA hp
+      omega
+    · omega
+  rw [roundAt_up p q e (by omega)]
+  have hs : (52 - e).toNat = 21 + (31 - e).toNat := by omega
+  rw [hs]
+  generalize (31 - e).toNat = t
+  have hh := round_half (p * 2 ^ (21 + t)) q hq
+  have hsig : sig (p * 2 ^ (21 + t)) q =
+      (if 2 * (p * 2 ^ (21 + t) % q) > q ∨ (2 * (p * 2 ^ (21 + t) % q) = q ∧ p * 2 ^ (21 + t) / q % 2 = 1)
+       then p * 2 ^ (21 + t) / q + 1 else p * 2 ^ (21 + t) / q) := rfl
+  simp only [] at hh
+  rw [← hsig] at hh
+  generalize sig (p * 2 ^ (21 + t)) q = M at hh
+  have hden : 2097152 * 2 ^ t = 2 ^ (21 + t) := by rw [Nat.pow_add]
+  have hpos : 0 < 2 ^ t := pow_pos' t
+  refine ⟨pow_pos' _, ?_, ?_⟩
+  · show 4194304 * (M * q) ≤ 4194304 * (p * 2 ^ (21 + t)) + q * 2 ^ (21 + t)
+    rw [← hden]
+    have : q ≤ q * 2 ^ t := Nat.le_mul_of_pos_right q hpos
+    rw [← hden] at hh
+    generalize p * (2097152 * 2 ^ t) = P at *
+    have e1 : q * (2097152 * 2 ^ t) = 2097152 * (q * 2 ^ t) := by grind
+    rw [e1]
+    generalize q * 2 ^ t = Qt at *
+    generalize M * q = MQ at *
+    omega
+  · show 4194304 * (p * 2 ^ (21 + t)) ≤ 4194304 * (M * q) + q * 2 ^ (21 + t)
+    rw [← hden]
+    have : q ≤ q * 2 ^ t := Nat.le_mul_of_pos_right q hpos
+    rw [← hden] at hh
+    generalize p * (2097152 * 2 ^ t) = P at *
+    have e1 : q * (2097152 * 2 ^ t) = 2097152 * (q * 2 ^ t) := by grind
+    rw [e1]
+    generalize q * 2 ^ t = Qt at *
+    generalize M * q = MQ at *
+    omega
+
+theorem roundQ_abs (p q : Nat) (hq : 0 < q) (hp : p < 4294967296 * q) : NearAbs (roundQ p q) p q := by
+  unfold roundQ
+  by_cases hp0 : p = 0
+  · subst hp0
+    simp only [true_or, if_true]
+    exact ⟨Nat.one_pos, by simp, by simp⟩
+  · have hq' : ¬ q = 0 := by omega
+    rw [if_neg (by simp [hp0, hq'])]
+    exact roundAt_abs p q _ hq (expo_ge p q (by omega)) hp
+
+theorem NearAbs.cancel {r : F} {p q c : Nat} (hc : 0 < c) (h : NearAbs r (p * c) (q * c)) : NearAbs r p q := by
+  refine ⟨h.den_pos, ?_, ?_⟩
+  · have := h.upper
+    have h' : (4194304 * (r.num * q)) * c ≤ (4194304 * (p * r.den) + q * r.den) * c := by grind
+    exact Nat.le_of_mul_le_mul_right h' hc
+  · have := h.lower
+    have h' : (4194304 * (p * r.den)) * c ≤ (4194304 * (r.num * q) + q * r.den) * c := by grind
+    exact Nat.le_of_mul_le_mul_right h' hc
+
+
+theorem sig_of_dvd (P Q : Nat) (hQ : 0 < Q) (h : P % Q = 0) : sig P Q = P / Q := by
+  unfold sig
+  rw [h]
+  have : ¬ (2 * 0 > Q ∨ (2 * 0 = Q ∧ P / Q % 2 = 1)) := by omega
+  rw [if_neg this]
+
+theorem expo_one (x : Nat) (hx : x ≠ 0) : expo x 1 = (x.log2 : Int) := by
+  have hl1 : (1 : Nat).log2 = 0 := by decide
+  have hle : 2 ^ x.log2 ≤ x := Nat.log2_self_le hx
+  unfold expo
+  simp only [hl1]
+  have : geExp x 1 ((x.log2 : Int) - ((0 : Nat) : Int)) = true := by
+    unfold geExp
+    have : (x.log2 : Int) - ((0 : Nat) : Int) ≥ 0 := by omega
+    rw [if_pos this]
+    have e : ((x.log2 : Int) - ((0 : Nat) : Int)).toNat = x.log2 := by omega
+    rw [e, Nat.one_mul]
+    exact decide_eq_true hle
+  rw [if_pos this]; omega
+
+/-- integers with at most 53 significant bits convert exactly -/
+theorem ofNat_exact_shift (n j : Nat) (hn : n < two53) :
+    (ofNat (n * 2 ^ j)).num = n * 2 ^ j * (ofNat (n * 2 ^ j)).den ∧ 0 < (ofNat (n * 2 ^ j)).den := by
+  generalize hx : n * 2 ^ j = x
+  unfold ofNat roundQ
+  by_cases h0 : x = 0
+  · subst h0; simp
+  · rw [if_neg (by simp [h0]), expo_one x h0]
+    have hle : 2 ^ x.log2 ≤ x := Nat.log2_self_le h0
+    by_cases hs : 52 - (x.log2 : Int) ≥ 0
+    · rw [roundAt_up x 1 _ hs, sig_one]
+      exact ⟨rfl, pow_pos' _⟩
+    · rw [roundAt_down x 1 _ hs]
+      have hsj : (-(52 - (x.log2 : Int))).toNat ≤ j := by
+        have h1 : x < 2 ^ (53 + j) := by
+          rw [← hx, Nat.pow_add]
+          have : n * 2 ^ j < two53 * 2 ^ j := Nat.mul_lt_mul_of_pos_right hn (pow_pos' j)
+          unfold two53 at this
+          have e : (2 : Nat) ^ 53 = 9007199254740992 := by decide
+          rw [e]; exact this
+        have h2 : 2 ^ x.log2 < 2 ^ (53 + j) := Nat.lt_of_le_of_lt hle h1
+        have h3 : x.log2 < 53 + j := (Nat.pow_lt_pow_iff_right (by decide)).mp h2
+        omega
+      generalize (-(52 - (x.log2 : Int))).toNat = s at hsj
+      have hdvd : x % (1 * 2 ^ s) = 0 := by
+        rw [Nat.one_mul, ← hx]
+        have : j = (j - s) + s := by omega
+        rw [this, Nat.pow_add, ← Nat.mul_assoc]
+        exact Nat.mul_mod_left _ _
+      rw [sig_of_dvd x (1 * 2 ^ s) (by rw [Nat.one_mul]; exact pow_pos' s) hdvd]
+      refine ⟨?_, Nat.one_pos⟩
+      show x / (1 * 2 ^ s) * 2 ^ s = x * 1
+      rw [Nat.one_mul, Nat.mul_one]
+      rw [Nat.one_mul] at hdvd
+      exact Nat.div_mul_cancel (Nat.dvd_of_mod_eq_zero hdvd)
 
 
 end Rtsp.F64
